@@ -139,7 +139,7 @@ Fixpoint parse_string (fuel : nat) (s : list N) (acc : list N) : option (str * l
   | S fuel' =>
       match s with
       | [] => None
-      | 34 :: r => Some (rev acc, r)                        (* dquote *)
+      | 34 :: r => Some (rev_append acc [], r)                        (* dquote *)
       | 92 :: e :: r =>                                     (* backslash *)
           match e with
           | 34 => parse_string fuel' r (34 :: acc)
@@ -199,7 +199,7 @@ Fixpoint parse_value (fuel : nat) (s : list N) : option (json * list N) :=
       | 116 :: 114 :: 117 :: 101 :: r => Some (JBool true, r)
       | 102 :: 97 :: 108 :: 115 :: 101 :: r => Some (JBool false, r)
       | 34 :: r =>
-          match parse_string (S (length r)) r [] with
+          match parse_string (S fuel') r []   (* fuel' >= |r|: see parse_json *) with
           | Some (st, r') => Some (JStr st, r')
           | None => None
           end
@@ -215,7 +215,7 @@ Fixpoint parse_value (fuel : nat) (s : list N) : option (json * list N) :=
                      | Some (v, r1) =>
                          match skip_ws r1 with
                          | 44 :: r2 => elems f' r2 (v :: acc)
-                         | 93 :: r2 => Some (JList (rev (v :: acc)), r2)
+                         | 93 :: r2 => Some (JList (rev_append (v :: acc) []), r2)
                          | _ => None
                          end
                      | None => None
@@ -232,7 +232,7 @@ Fixpoint parse_value (fuel : nat) (s : list N) : option (json * list N) :=
                  | S f' =>
                      match skip_ws s with
                      | 34 :: r0 =>
-                         match parse_string (S (length r0)) r0 [] with
+                         match parse_string (S fuel') r0 [] with
                          | Some (k, r1) =>
                              match skip_ws r1 with
                              | 58 :: r2 =>
@@ -240,7 +240,7 @@ Fixpoint parse_value (fuel : nat) (s : list N) : option (json * list N) :=
                                  | Some (v, r3) =>
                                      match skip_ws r3 with
                                      | 44 :: r4 => members f' r4 ((k, v) :: acc)
-                                     | 125 :: r4 => Some (JDict (rev ((k, v) :: acc)), r4)
+                                     | 125 :: r4 => Some (JDict (rev_append ((k, v) :: acc) []), r4)
                                      | _ => None
                                      end
                                  | None => None
@@ -268,6 +268,9 @@ Fixpoint parse_value (fuel : nat) (s : list N) : option (json * list N) :=
       end
   end%N.
 
+(** fuel: [S (length s)] at the top, one less per nesting level; the text still to be read at
+    nesting depth d is at most [length s - d] long, so the fuel also bounds every string body
+    (computing [length] of the rest for every string made parsing quadratic). *)
 Definition parse_json (s : list N) : option json :=
   match parse_value (S (length s)) s with
   | Some (v, r) => match skip_ws r with [] => Some v | _ => None end
@@ -351,5 +354,6 @@ Definition jerr (e : err) : json :=
     | EIOError => [73;79;69;114;114;111;114]
     | EUnicode => [85;110;105;99;111;100;101]
     | ENotImplemented => [78;111;116;73;109;112;108;101;109;101;110;116;101;100]
+    | EDiverge => [68;105;118;101;114;103;101]
     | EUnmodelled => [85;110;109;111;100;101;108;108;101;100]
     end)%N)].
